@@ -160,15 +160,19 @@ func WriteMultipartFormFile(w *multipart.Writer, fieldName, fileName string, r i
 	return err
 }
 
+// quoteEscaper escapes what cannot stand as it is inside a quoted-string of
+// Content-Disposition (as mime/multipart does for its own headers).
+var quoteEscaper = strings.NewReplacer("\\", "\\\\", `"`, "\\\"")
+
 func CreateMultipartHeader(param, fileName, contentType string) textproto.MIMEHeader {
 	hdr := make(textproto.MIMEHeader)
 
 	var contentDispositionValue string
 	if len(strings.TrimSpace(fileName)) == 0 {
-		contentDispositionValue = fmt.Sprintf(`form-data; name="%s"`, param)
+		contentDispositionValue = fmt.Sprintf(`form-data; name="%s"`, quoteEscaper.Replace(param))
 	} else {
 		contentDispositionValue = fmt.Sprintf(`form-data; name="%s"; filename="%s"`,
-			param, fileName)
+			quoteEscaper.Replace(param), quoteEscaper.Replace(fileName))
 	}
 	hdr.Set("Content-Disposition", contentDispositionValue)
 
